@@ -228,6 +228,10 @@ def r05_11(ctx):
 
 
 def run(ctx):
+    # a worker told to exit by the hard limit takes no further job (borrowed from C08)
+    from .c08 import r08_11 as _r08_11
+    from ..report import Only as _Only5
+    _r08_11(_Only5(ctx, ('exit-flag-looked-at-before-the-next-job',), floor=1, doc='the worker looks at the exit-requested flag before it takes another job'))
     r05_10(ctx)
     r05_11(ctx)
     helpers_hold_live_objects(ctx, 'R05.8', only=('TimeoutHandler', 'ResultHandler.cache'), floor=3)
